@@ -27,7 +27,9 @@ fn gen(rng: &mut Rng, case: u64) -> Case {
         });
     }
     let window = match rng.below(5) { 0 => rng.range_i64(1, 10), 1 => rng.step_ns(1, 1_000_000), _ => rng.step_ns(1_000, 36_000_000_000_000) };
-    let smoothing = match rng.below(5) { 0 => 0.0, 1 => 1.0, 2 => (2.0f32).powi(-(1 + rng.below(12) as i32)), _ => rng.unit() as f32 };
+    let smoothing = match rng.below(6) { 0 => 0.0, 1 => 1.0, 2 => (2.0f32).powi(-(1 + rng.below(12) as i32)),
+        3 => *rng.pick(&[1.0f32 - f32::EPSILON / 2.0, 1.0 - f32::EPSILON, 1.0 - 2.0 * f32::EPSILON, f32::EPSILON, f32::MIN_POSITIVE, 0.5]), // the f32 neighbours of 1 and 0
+        _ => rng.unit() as f32 };
     Case { window, smoothing, h }
 }
 fn secs(ns: i64) -> f32 {
